@@ -2,7 +2,7 @@
 # seeded_matrix.sh [tier] [ids...] : run the relevant check(s) against every seeded change (scratch copies of /repo), update meta.json and sensitivity/RESULTS.md
 TIER=${1:-quick}; shift
 cd /verif
-IDS="$@"; [ -z "$IDS" ] && IDS=$(ls seeded)
+IDS="$@"; [ -z "$IDS" ] && IDS=$(ls -d seeded/*/ | xargs -n1 basename)
 mkdir -p sensitivity
 for id in $IDS; do
   d=seeded/$id; P=$(jq -r .breaks_property $d/meta.json)
